@@ -105,6 +105,20 @@ pub(crate) fn verify_nonmembership<TC: Configuration>(
         ));
     }
 
+    // Verify that neither child of the claimed longest prefix is itself a prefix of the
+    // proof's label. Otherwise longest_prefix is not the deepest node matching the label, and
+    // the label could still be present further down that child's subtree. A missing child (only
+    // possible at the root) is represented by the empty label and is skipped.
+    if proof
+        .longest_prefix_children
+        .iter()
+        .any(|child| child.label != TC::empty_label() && child.label.is_prefix_of(&proof.label))
+    {
+        return Err(VerificationError::NonMembershipProof(
+            "One of the children's labels is a prefix of the proof's label".to_string(),
+        ));
+    }
+
     // Verify that proof.longest_prefix is the longest common prefix of the children
     let mut lcp_children = proof.longest_prefix_children[0]
         .label
